@@ -20,7 +20,7 @@ import (
 // non-test Go file of the library gets a vwork.Tick() call at the entry of every function (declarations and
 // literals) and at the head of every loop body. Nothing under /repo is touched.
 func vfgenWork(work string) (string, int, error) {
-	const repo = "/repo"
+	repo := repoDir()
 	dir := filepath.Join(work, "overlay-work")
 	os.RemoveAll(dir)
 	if err := os.MkdirAll(dir, 0o755); err != nil {
@@ -134,7 +134,7 @@ func vfgenWork(work string) (string, int, error) {
 
 func c05Plan(tier string) *harness.Plan {
 	plan := wx.Plan(tier)
-	work := filepath.Join(root, ".work")
+	work := filepath.Join(root, ".work", os.Getenv("VF_WORK_SUB"))
 	plan.Prepare = func(opt *harness.Options) error {
 		ov, n, err := vfgenWork(work)
 		if err != nil {
@@ -144,7 +144,9 @@ func c05Plan(tier string) *harness.Plan {
 		if gobin == "" {
 			gobin = "go"
 		}
-		cmd := exec.Command(gobin, "build", "-tags", "verif", "-overlay", ov, "-o", filepath.Join(work, "wx"), "./cmd/wx")
+		bargs := append([]string{"build", "-tags", "verif", "-overlay", ov}, modArgs()...)
+		bargs = append(bargs, "-o", filepath.Join(work, "wx"), "./cmd/wx")
+		cmd := exec.Command(gobin, bargs...)
 		cmd.Dir = root
 		if outp, err := cmd.CombinedOutput(); err != nil {
 			return fmt.Errorf("building wx: %v\n%s", err, outp)
